@@ -335,6 +335,63 @@ def clingo_answer_sets(program, limit=20001):
     return out
 
 
+def make_probes(A, R, k=4):
+    """finite interpretations on which the Lean twin of the direct reading is evaluated: answer sets, reference models, and
+    neighbours of reference models (one atom removed / one atom of another model added); each with `is a reference model`"""
+    key = lambda m: sorted(map(repr, m))
+    As, Rs = sorted(A, key=key), sorted(R, key=key)
+    cands = As[:k] + Rs[:k] + As[-2:] + Rs[-2:]
+    pool = sorted(set().union(*Rs) if Rs else set(), key=repr)
+    for m in Rs[:2] + Rs[-1:]:
+        ms = sorted(m, key=repr)
+        if ms:
+            cands.append(frozenset(ms[:-1]))
+            cands.append(frozenset(ms[1:]))
+        extra = [a for a in pool if a not in m]
+        if extra:
+            cands.append(frozenset(set(m) | {extra[0]}))
+            cands.append(frozenset(set(m) | {extra[-1]}))
+    out, seen = [], set()
+    for m in cands:
+        if m not in seen:
+            seen.add(m)
+            out.append(([[a[0], list(a[1:])] for a in sorted(m, key=repr)], m in R))
+    return out[:16]
+
+
+def lean_reading_check(run, items):
+    """items: (spec_ast, probes, text).  The Lean executable twin of RefModel (Cnl/RefExec.lean) must agree with the Python
+    enumeration of the direct reading on every probe."""
+    reqs, idx = [], []
+    for ast, probes, text in items:
+        if not probes:
+            continue
+        universe = []
+        for s in ast:
+            if s['k'] == 'facts':
+                for t in s['tuples']:
+                    for v in t:
+                        if v not in universe:
+                            universe.append(v)
+        reqs.append(('c01.ref', {'spec': ast, 'universe': universe,
+                                 'models': [[{'p': a[0], 'args': a[1]} for a in m] for m, _ in probes]}))
+        idx.append((ast, probes, text))
+    answers = common.run_model(reqs) if reqs else []
+    n = 0
+    for (ast, probes, text), a in zip(idx, answers):
+        if a is None or 'err' in a:
+            run.broke('corr', 'the driver cannot evaluate the direct reading on a generated specification', {'cnl': text, 'answer': a})
+            continue
+        for (m, in_ref), lean in zip(probes, a['ok']):
+            n += 1
+            run.count(('reading-probe', text, repr(m)))
+            if lean is None or bool(lean) != in_ref:
+                run.broke('corr', 'Cnl/RefExec.lean refCheckB vs the Python enumeration of the direct reading (two implementations of '
+                          'the same reading disagree)', {'cnl': text, 'interpretation': m, 'lean': lean, 'python_reference_model': in_ref})
+                break
+    run.coverage['reading_probes'] = n
+
+
 def _job(args):
     text, ast, order = args
     rt.enable_lark_cache()
@@ -359,6 +416,7 @@ def _job(args):
     A = set(ans)
     R = set(frozenset(m) for m in ref)
     res['n_models'] = len(A)
+    res['probes'] = make_probes(A, R)
     if A != R:
         only_a = sorted(A - R, key=lambda m: sorted(map(repr, m)))[:2]
         only_r = sorted(R - A, key=lambda m: sorted(map(repr, m)))[:2]
@@ -441,6 +499,7 @@ def main(tier):
                 run.violation(key, f'answer sets differ from the direct reading ({r["diff"]["answer_sets"]} vs {r["diff"]["reference_models"]})'
                               + (f'; sentence: {s.text}' if s else ''),
                               {'cnl': sp.text(), 'program': r['program'], 'sentence': s.text if s else None, **r['diff']})
+    lean_reading_check(run, [(sp.ast(), r.get('probes'), sp.text()) for sp, r in zip(specs, results) if 'probes' in r])
     run.coverage['specifications'] = stats
     run.coverage['sentence_kinds'] = kinds
     for sp in specs[:3]:
